@@ -43,18 +43,12 @@ def regen_parser():
     lock = os.path.join(tempfile.gettempdir(), "vf-parser.lock")
     with open(lock, "w") as lf:
         fcntl.flock(lf, fcntl.LOCK_EX)
-        stamp = target + ".gramsha"
-        import hashlib
-
-        with open(gram, "rb") as f:
-            sha = hashlib.sha1(f.read()).hexdigest()
-        if os.path.exists(target) and os.path.exists(stamp):
-            try:
-                if open(stamp).read().strip() == sha:
-                    return
-            except OSError:
-                pass
-        fd, tmp = tempfile.mkstemp(suffix=".py", dir=syn)
+        for fn in os.listdir(syn):  # leftovers of killed runs
+            if fn.startswith("vf-parser-") and fn.endswith(".tmp"):
+                p = os.path.join(syn, fn)
+                if time.time() - os.path.getmtime(p) > 600:
+                    os.unlink(p)
+        fd, tmp = tempfile.mkstemp(prefix="vf-parser-", suffix=".tmp", dir=syn)
         os.close(fd)
         try:
             r = subprocess.run([sys.executable, "-m", "pegen", gram, "-o", tmp],
@@ -66,8 +60,6 @@ def regen_parser():
             if new != old:
                 os.replace(tmp, target)
                 tmp = None
-            with open(stamp, "w") as f:
-                f.write(sha)
         finally:
             if tmp and os.path.exists(tmp):
                 os.unlink(tmp)
